@@ -550,9 +550,11 @@ class ExecutionPaths(Output):
             filename = dest / self._filename(idx)
             print(f"\t\t check file: {filename}")
 
+            # the path holds the function's copies of the contract's blocks: compare block ids
+            path_block_ids = [bi.idx for bi in path]
             config.bb_border_color = (
-                lambda bb: "BLACK"
-                if bb not in path  # pylint: disable=cell-var-from-loop
+                lambda bb, ids=path_block_ids: "BLACK"  # type: ignore
+                if bb.idx not in ids
                 else "RED"
             )
             full_cfg_to_dot(self._teal, config, filename)
